@@ -40,6 +40,11 @@ def verification_atoms(ctx, flow, fn, test):
     return out
 
 
+def _is_copy_call(ctx, fn, call):
+    """The call copies a file: the copy function itself or a helper that cannot return without having called it."""
+    return any(t in ctx._copying for t in C.targets_of(ctx, fn, call))
+
+
 def search_continues(ctx, flow, reach):
     loops = 0
     for fn in reach:
@@ -50,7 +55,7 @@ def search_continues(ctx, flow, reach):
             if not is_candidate_loop(ctx, flow, fn, loop):
                 continue
             # only loops that verify something
-            body_calls_copy = any(isinstance(n, ast.Call) and any(t[0] == "pkg" and t[1].name == "copypath" for t in ctx.res.call_targets(n, fn)) for st in loop.body for n in ast.walk(st))
+            body_calls_copy = any(isinstance(n, ast.Call) and _is_copy_call(ctx, fn, n) for st in loop.body for n in ast.walk(st))
             if not body_calls_copy:
                 continue
             loops += 1
@@ -238,7 +243,7 @@ def reader_tolerates(ctx, reach):
         if not uses_root:
             continue
         g = C.cfg_of(fn)
-        copies = [c for c in own_nodes(fn.node) if isinstance(c, ast.Call) and any(t[0] == "pkg" and t[1].name == "copypath" for t in ctx.res.call_targets(c, fn))]
+        copies = [c for c in own_nodes(fn.node) if isinstance(c, ast.Call) and _is_copy_call(ctx, fn, c)]
         for c in copies:
             cn = C.stmt_node(ctx, fn, c)
             hash_tests = []
@@ -441,7 +446,7 @@ def candidates_independent(ctx, flow, reach):
         for loop in [x for x in own_nodes(fn.node) if isinstance(x, ast.For)]:
             if not is_candidate_loop(ctx, flow, fn, loop):
                 continue
-            if not any(isinstance(c, ast.Call) and any(t.name == "copypath" for t in C.targets_of(ctx, fn, c)) for st in loop.body for c in ast.walk(st)):
+            if not any(isinstance(c, ast.Call) and _is_copy_call(ctx, fn, c) for st in loop.body for c in ast.walk(st)):
                 continue
             n += 1
             outer = set(fn.all_params()) | {t.id for st in fn.node.body if st is not loop and isinstance(st, ast.Assign) for t in st.targets if isinstance(t, ast.Name)}
@@ -484,8 +489,9 @@ def run(ctx):
     flow = Flow(ctx.prog, ctx.res, stop_funcs=stops)
     effs, precise, full = C.reach_effects(ctx, entries, ("fs-write", "fs-write?"))
     copyfns = copy_functions(ctx, effs)
+    ctx._copying = always_copying(ctx, copyfns)
     search_continues(ctx, flow, full)
-    counted_placed(ctx, flow, full, always_copying(ctx, copyfns))
+    counted_placed(ctx, flow, full, ctx._copying)
     reader_tolerates(ctx, full)
     reader_complete(ctx, full)
     index_complete(ctx)
